@@ -146,6 +146,17 @@ class Roots:
         mapping = {("param", f.path, i): a for i, a in enumerate(v[4])}
         return subst_params(info[0], mapping)
 
+    def helper_inline(self, v):
+        """Private, effect-free, loop-free workspace helper: its (non-error) return value with parameters substituted."""
+        return inline_call(self.P, v)
+
+    def with_captures(self, cv):
+        """A Roots view in which the upvars of closure value `cv` are its own (possibly substituted) capture operands."""
+        r = Roots(self.P)
+        r.capture_override = dict(getattr(self, "capture_override", {}))
+        r.capture_override[cv[2]] = {i: x for i, x in cv[3]}
+        return r
+
     def closure_return_roots(self, cv):
         """Roots of the value returned by a closure aggregate value (all exits)."""
         if cv[0] != "agg" or cv[1] != "closure":
@@ -154,8 +165,9 @@ class Roots:
         if cf is None or cf.body is None:
             return None
         out = set()
+        R2 = self.with_captures(cv)
         for (b, i, cls, v) in exit_sites(self.P, cf):
-            out |= self.roots(v)
+            out |= R2.roots(v)
         return out
 
     def _roots(self, v, path):
@@ -171,6 +183,9 @@ class Roots:
             fn = self.P.fn(v[1])
             path = _strip_wrapper(path)
             if fn is not None and fn.kind == "closure" and v[2] == 0 and path and path[0][0] == "f" and isinstance(path[0][1], int):
+                ov = getattr(self, "capture_override", {}).get(fn.path)
+                if ov is not None and path[0][1] in ov:
+                    return self.roots(ov[path[0][1]], path[1:])
                 site = self.P.closure_site(fn.path)
                 if site is not None:
                     pf, b, i, rv = site
@@ -186,16 +201,21 @@ class Roots:
         if k == "call":
             callee = v[3]
             if is_try_branch(callee):
-                return self.roots(v[4][0], _strip_wrapper(path))
+                return self.roots(v[4][0], path)
             ti = transparent_arg(callee)
             if ti is None:
                 ti = self.extra(callee)
             if ti is not None and ti < len(v[4]):
+                if isinstance(callee, str) and last_seg(callee) in ("unwrap", "expect") and ti == 0:
+                    return self.roots(v[4][0], (("v", "Ok"), ("f", 0)) + tuple(path))
                 return self.roots(v[4][ti], path)
             cs = generic_path(callee) if isinstance(callee, str) else "dyn"
             sv = self.simple_inline(v)
             if sv is not None:
                 return self.roots(sv, path)
+            hv = self.helper_inline(v)
+            if hv is not None:
+                return self.roots(hv, path)
             if cs.endswith("option::Option::unwrap_or") and len(v[4]) == 2:
                 return {"or(%s;%s)%s" % ("|".join(sorted(self.roots(v[4][0], (("v", "Some"), ("f", 0))))),
                                           "|".join(sorted(self.roots(v[4][1]))), path_str(path))}
@@ -213,6 +233,12 @@ class Roots:
             return {"C:%s@%s:bb%d%s" % (cs, v[1], v[2], path_str(_strip_wrapper(path)))}
         if k == "agg":
             p2 = path
+            if p2 and p2[0][0] == "v" and p2[0][1] in _WRAPPER_VARIANTS and v[1] == "adt" and \
+                    re.search(r"(result::Result::Ok|option::Option::Some|ops::ControlFlow::Continue)$", str(v[2])) and len(v[3]) == 1:
+                rest = p2[1:]
+                if rest and rest[0][0] == "f" and str(rest[0][1]) == "0":
+                    rest = rest[1:]
+                return self.roots(v[3][0][1], rest)
             if p2 and p2[0][0] == "v":
                 # downcast to the aggregate's own variant is a no-op
                 if str(v[2]).endswith("::" + p2[0][1]):
@@ -904,3 +930,101 @@ def mapped_element(v):
     if clo[0] != "agg" or clo[1] != "closure":
         return None
     return clo, k, src
+
+
+_PURE_MEMO = {}
+_STORE_OR_MSG = re.compile(r"(cw_storage_plus::\S*::(save|update|remove)$|cw2::set_contract_version$)")
+
+
+def pure_helper(P, f, depth=0):
+    """f is a private, effect-free, loop-free workspace function small enough to be inlined into provenance."""
+    key = (id(P), f.path)
+    if key in _PURE_MEMO:
+        return _PURE_MEMO[key]
+    _PURE_MEMO[key] = False
+    ok = (f.body is not None and not f.derived and f.kind in ("fn", "assoc_fn") and f.impl_trait is None and
+          not (f.j.get("vis") or "Public").startswith("Public") and len(f.body.blocks) <= 120 and
+          f.crate in ("halo_pair", "halo_factory", "halo_router", "haloswap", "bignumber") and "::tests::" not in f.path and "mock_querier" not in f.path)
+    if ok:
+        if f.body.back_edges():
+            ok = False
+    if ok:
+        for b, blk in enumerate(f.body.blocks):
+            if blk["cleanup"]:
+                continue
+            for st in blk["stmts"]:
+                if st["k"] == "assign" and st["rv"]["k"] == "agg" and st["rv"].get("agg") == "adt" and MSG_ADT.match(st["rv"]["adt"]):
+                    ok = False
+            t_ = blk["term"]
+            if t_["k"] == "call":
+                p, fr = callee_of(t_)
+                if p and _STORE_OR_MSG.search(generic_path(p)):
+                    ok = False
+                if p and depth < 3:
+                    g = P.fn(p) or P.fn(generic_path(p))
+                    if g is not None and g.body is not None and g.path != f.path and not g.derived and g.crate in ("halo_pair", "halo_factory", "halo_router"):
+                        # callees inside contract crates must be effect free as well
+                        if not _effect_free(P, g, depth + 1):
+                            ok = False
+    _PURE_MEMO[key] = ok
+    return ok
+
+
+def _effect_free(P, g, depth):
+    for b, blk in enumerate(g.body.blocks):
+        if blk["cleanup"]:
+            continue
+        for st in blk["stmts"]:
+            if st["k"] == "assign" and st["rv"]["k"] == "agg" and st["rv"].get("agg") == "adt" and MSG_ADT.match(st["rv"]["adt"]):
+                return False
+        t_ = blk["term"]
+        if t_["k"] == "call":
+            p, fr = callee_of(t_)
+            if p and _STORE_OR_MSG.search(generic_path(p)):
+                return False
+    return True
+
+
+def inline_call(P, v):
+    """If v is a call of a pure private helper: phi of its non-error return values with parameters substituted, else None."""
+    if v[0] != "call" or not isinstance(v[3], str):
+        return None
+    f = P.fn(v[3]) or P.fn(generic_path(v[3]))
+    if f is None or not pure_helper(P, f):
+        return None
+    vals = []
+    for (b, i, cls, rv) in exit_sites(P, f):
+        if cls == "err":
+            continue
+        vals.append(rv)
+    if not vals:
+        return None
+    mapping = {("param", f.path, i): a for i, a in enumerate(v[4])}
+    return phi([subst_params(x, mapping) for x in vals])
+
+
+def inline_helpers(P, v, depth=0):
+    """Rewrite a value tree, replacing calls of pure private helpers by their substituted return values (for walk()-based rules)."""
+    if depth > 6:
+        return v
+    k = v[0]
+    if k == "call":
+        iv = inline_call(P, v)
+        if iv is not None:
+            return inline_helpers(P, iv, depth + 1)
+        return ("call", v[1], v[2], v[3], tuple(inline_helpers(P, x, depth) for x in v[4]))
+    if k == "phi":
+        return phi([inline_helpers(P, x, depth) for x in v[1]])
+    if k == "proj":
+        return proj(inline_helpers(P, v[1], depth), v[2])
+    if k == "agg":
+        return ("agg", v[1], v[2], tuple((n, inline_helpers(P, x, depth)) for n, x in v[3]))
+    if k == "binop":
+        return ("binop", v[1], inline_helpers(P, v[2], depth), inline_helpers(P, v[3], depth))
+    if k == "cast":
+        return ("cast", v[1], inline_helpers(P, v[2], depth), v[3])
+    if k == "mut":
+        return ("mut", inline_helpers(P, v[1], depth)) + v[2:]
+    if k == "upd":
+        return ("upd", inline_helpers(P, v[1], depth), v[2], inline_helpers(P, v[3], depth))
+    return v
